@@ -297,8 +297,11 @@ func (f *Frame) oblige(class, kind string, pos token.Pos, cond T) *Obl {
 	o.Extra = append(o.Extra, f.enc.extras...)
 	o.Extra = append(o.Extra, f.pointUses()...)
 	f.enc.obls = append(f.enc.obls, o)
-	// after checking, the condition is assumed (execution continues only if it held)
-	f.assume(cond)
+	// a failed panic check or callee precondition ends the execution, so the condition holds on
+	// every continuation; frame/lock/overflow checks do not stop execution and are NOT assumed
+	if class == "panic" || class == "pre" || class == "reflect" {
+		f.assume(cond)
+	}
 	return o
 }
 
